@@ -159,6 +159,9 @@ def concretize_value(model, v):
         return model.eval(v.e, model_completion=True).as_long()
     if isinstance(v, SBool):
         return z3.is_true(model.eval(v.e, model_completion=True))
+    if isinstance(v, core.SReal):
+        r = model.eval(v.e, model_completion=True)
+        return float(r.as_fraction()) if hasattr(r, "as_fraction") else float(str(r))
     if isinstance(v, SSeq):
         n = v.n if isinstance(v.n, int) else model.eval(v.n, model_completion=True).as_long()
         vals = [model.eval(e, model_completion=True).as_long() for e in v.elems[:n]]
